@@ -169,9 +169,12 @@ Fixpoint parse_alt (fuel : nat) (cs : list ascii) : option (rx * list ascii) :=
 
 Definition rx_parse (p : string) : option rx :=
   let cs := list_ascii_of_string p in
-  match parse_alt (S (List.length cs)) cs with
-  | Some (r, []) => Some r
-  | _ => None
+  match cs with
+  | [] => Some REps                       (* the empty pattern matches the empty prefix *)
+  | _ => match parse_alt (S (List.length cs)) cs with
+         | Some (r, []) => Some r
+         | _ => None
+         end
   end.
 
 (* re.match(p, s) is not None, for patterns of the subset *)
